@@ -352,5 +352,55 @@ func c18Registry(x *core.Ctx, schema *ast.Schema, fresh func() *ast.QueryDocumen
 		return
 	}
 	restore()
-	cmp("after-restore", c18Standard)
+	if !cmp("after-restore", c18Standard) {
+		return
+	}
+	// the functions handed over so far were the rules' own, so a registry that keeps an old function, or puts a new one into
+	// a neighbour's place, looked right; now with functions that report something of their own. A registered rule is
+	// replaced AFTER the default set has been used (a cached copy of the set must not survive the replacement) ...
+	marker := func(tag string) validator.RuleFunc {
+		return func(o *validator.Events, addError validator.AddErrFunc) {
+			o.OnOperation(func(w *validator.Walker, op *ast.OperationDefinition) {
+				addError(validator.Message("%s", tag), validator.At(op.Position))
+			})
+		}
+	}
+	validator.ReplaceRule(other.Name, marker("marker-one"))
+	var withMarker []validator.Rule
+	for _, r := range c18Standard {
+		if r.Name == other.Name {
+			r = validator.Rule{Name: r.Name, RuleFunc: marker("marker-one")}
+		}
+		withMarker = append(withMarker, r)
+	}
+	if !cmp("after-ReplaceRule-by-another-function", withMarker) {
+		return
+	}
+	for _, e := range validator.Validate(schema, fresh()) {
+		if e.Message == "marker-one" && e.Rule != other.Name {
+			x.Violate("registry:replaced-function-reports-under-another-name", e.Rule, other.Name)
+			return
+		}
+	}
+	restore()
+	// ... and after a rule that is not the last one was removed, a name that is still registered further on is added again:
+	// two entries of that name, the new one at the end, every other rule where and what it was
+	if k+2 < len(c18Standard) {
+		later := c18Standard[k+1+(k*5+1)%(len(c18Standard)-k-1)]
+		validator.RemoveRule(victim.Name)
+		validator.AddRule(later.Name, marker("marker-two"))
+		explicit := append(append([]validator.Rule{}, rest...), validator.Rule{Name: later.Name, RuleFunc: marker("marker-two")})
+		if !cmp("after-RemoveRule-then-AddRule-of-a-registered-name", explicit) {
+			return
+		}
+		for _, e := range validator.Validate(schema, fresh()) {
+			if e.Message == "marker-two" && e.Rule != later.Name {
+				x.Violate("registry:added-function-reports-under-another-name", e.Rule, later.Name)
+				return
+			}
+		}
+		x.Count("registry_marker_sequences")
+		restore()
+		cmp("after-second-restore", c18Standard)
+	}
 }
